@@ -69,7 +69,7 @@ fn mutate_bytes(t: &mut Tape, input: &mut Vec<u8>) {
         }
         1 => {
             // a very long line
-            let mut line = vec![b'x'; 100_000];
+            let mut line = vec![b'x'; 20_000];
             line.push(b'\n');
             let pos = t.draw(input.len() + 1);
             // insert at a line boundary if possible
